@@ -1,6 +1,7 @@
 #![allow(dead_code)]
 mod absty;
 mod absval;
+mod bind;
 mod corpus;
 mod fuzz;
 mod gen;
@@ -11,6 +12,7 @@ mod msg;
 mod native;
 mod parse;
 mod principal;
+mod prog;
 mod proj;
 mod sub;
 mod suite;
@@ -35,6 +37,7 @@ fn main() {
         "fuzz" => fuzz::run(&o),
         "text" => text::run(&o),
         "parse" => parse::run(&o),
+        "prog" => prog::run(&o),
         "principal" => principal::run(&o),
         m => { eprintln!("usage: unknown mode {m}"); std::process::exit(2); }
     }
